@@ -24,8 +24,8 @@ What each oracle field becomes (Python expression it stands for → closed defin
 * `SidecarV.Oracle.defCount` `find_tags({"Definition"}, recursive=True)` → tags of the tree whose short base tag folds to it
 * `SidecarV.Oracle.isDefExpand` the tag's short base tag is `Def-expand` → `isDefExpandText` (the `#` of an entry are counted by
   `SidecarV.treeHash` on the tree after `remove_refs` / `shrink_defs`, as `_validate_pound_sign_count` does)
-* `SidecarV.Oracle.defIssues` NOT closed: sidecars that declare definitions are outside the closed fragment
-  (`sidecarUnmodelled`); the `n/a` splice is `Assemble.replaceRef` inside `SidecarV`
+* `SidecarV.Oracle.defIssues` / `defTree`: sidecars that declare definitions go through `SidecarV.validateClosedD`
+  (`sidecarOracleD`: the C09 definition model reads the entries' trees, `toDefs`; its dictionary joins `env.defs`, `envWith`); the `n/a` splice is `Assemble.replaceRef` inside `SidecarV`
 -/
 import HedVerif.Model.Validate
 import HedVerif.Model.Tabular
@@ -306,11 +306,66 @@ def sidecarOracle (env : Env) : SidecarV.Oracle where
   defIssues := []
   isDefExpand := isDefExpandText env
 
+/-! ### sidecars that declare definitions
+
+`Sidecar.get_def_dict(schema, extra_def_dicts)` = `DefinitionDict([extract_definitions(schema)] + extra)`: the sidecar's own
+definitions first (first wins), then the external ones.  `SidecarValidator.validate` builds `HedValidator(schema,
+def_dicts=that, definitions_allowed=True)`; the file validator (`TabularInput.validate` → `ColumnMapper.get_def_dict`) sees
+the same dictionary (with `definitions_allowed=False`). -/
+
+/-- the tag as the definition model (C09, `Model/Defs`) reads it: the data of `c09.Env.tree_json` -/
+def toDefsTag (env : Env) (t : RTag) : Defs.Tag :=
+  let sb := shortBase env t
+  { base := if t.entry.isNone then .other else if sb == defKey then .def_ else if sb == defExpandKey then .defExpand
+            else if sb == definitionKey then .definition else .other
+    name := if t.entry.isSome then sb else strOf env t
+    ext := if t.entry.isSome then t.extVal else []
+    org := fold t.org
+    takesValue := (entryAttr env t).takesValue
+    uniqReq := (entryAttr env t).unique || (entryAttr env t).required }
+
+mutual
+def toDefsNode (env : Env) : RNode → Defs.Node
+  | .tag t => .tag (toDefsTag env t)
+  | .group _ kids => .grp (toDefsList env kids)
+def toDefsList (env : Env) : List RNode → List Defs.Node
+  | [] => []
+  | n :: ns => toDefsNode env n :: toDefsList env ns
+end
+
+/-- `HedString(s, schema)` for `check_for_definitions` -/
+def toDefs (env : Env) (s : Str) : List Defs.Node := toDefsList env (parse env s).root0
+
+/-- the string layer of `HedValidator(schema, def_dicts, definitions_allowed=True)`: a `Definition` tag is not reported
+as misplaced (`_validate_individual_tags_in_hed_string`: `if not self._definitions_allowed and …`); the definition model's
+view of an entry; `casefold` -/
+def sidecarOracleD (env : Env) : SidecarV.Oracle :=
+  { sidecarOracle env with
+    basic := fun s => ((entryBasic env s).filter fun i => i.kind != .badDefinitionLocation).map pair
+    defTree := toDefs env
+    fold := fold }
+
+/-- a `DefinitionEntry` of the C09 model as the string validator's dictionary holds it: the stored content group is
+printed (`str(contents)`) and read against the schema again -/
+def convEntry (env : Env) (e : Defs.Entry) : DefEntry :=
+  let text := Defs.strL e.content
+  { key := e.key, takes := e.takes, content := resolveList env text (Tree.construct text) }
+
+/-- the dictionary the validators see: the sidecar's definitions, then the external ones (first wins) -/
+def envWith (env : Env) (dd : Defs.DefDict) : Env := { env with defs := dd.map (convEntry env) ++ env.defs }
+
+/-- `Sidecar(doc).extract_definitions(schema)` (empty when loading raises: validation raises too) -/
+def sidecarDict (env : Env) (g : SidecarV.Guards) (doc : SidecarV.Json) : Defs.DefDict :=
+  match SidecarV.extractDefsDoc g (sidecarOracleD env) doc with
+  | .ok (dd, _) => dd
+  | .error _ => []
+
 def memoSidecar (o : SidecarV.Oracle) (texts : List Str) : SidecarV.Oracle :=
   let b := tabulate o.basic texts
   let f := tabulate o.full texts
   let d := tabulate o.defCount texts
-  { o with basic := memo o.basic b, full := memo o.full f, defCount := memo o.defCount d }
+  let t := tabulate o.defTree texts
+  { o with basic := memo o.basic b, full := memo o.full f, defCount := memo o.defCount d, defTree := memo o.defTree t }
 
 end HedVerif.Closed
 
@@ -319,5 +374,11 @@ namespace HedVerif.SidecarV
 /-- `Sidecar(..).validate(schema, extra_def_dicts)` with `HedValidator` = the model `Validate` -/
 def validateClosed (env : Validate.Env) (g : Guards) (doc : Json) : Except Exn (List Issue) :=
   validate g (Closed.sidecarOracle env) doc
+
+/-- the same for sidecars that declare definitions: two stages — extract the sidecar's dictionary (depends on the schema
+only), then validate every entry against that dictionary followed by the external one, with the extraction issues and the
+clashes with external names (`SidecarV.validateD`) -/
+def validateClosedD (env : Validate.Env) (g : Guards) (doc : Json) : Except Exn (List Issue) :=
+  validateD g (Closed.sidecarOracleD (Closed.envWith env (Closed.sidecarDict env g doc))) (env.defs.map (·.key)) doc
 
 end HedVerif.SidecarV
